@@ -210,7 +210,9 @@ class C06(runner.Check):
         if len(idx) != want:
             viol.append(("requested-count", {"selected": idx, "want": want}))
         D = ((X[:, None, :] - X[None, :, :]) ** 2).sum(-1)
-        tol = sc.tol_of(D)
+        # relative to the scale of the data (float rounding of |a|^2 + |b|^2 - 2ab is ~1e-16 |x|^2): an absolute floor would hide
+        # discrepancies on small-scale data, e.g. points closer than a hard-coded absolute threshold
+        tol = 1e-9 * float(np.max(np.sum(X**2, axis=1)))
         for t in range(1, len(idx)):
             tm = D[:, idx[:t]].min(axis=1)
             if tm[idx[t]] < tm.max() - tol:
